@@ -17,6 +17,8 @@ import (
 	"github.com/deepteams/webp/internal/zzverif/choice"
 	"github.com/deepteams/webp/internal/zzverif/fw"
 	"github.com/deepteams/webp/internal/zzverif/imgs"
+	"github.com/deepteams/webp/internal/zzverif/riffwalk"
+	"github.com/deepteams/webp/internal/zzverif/vp8gen"
 	"github.com/deepteams/webp/internal/zzverif/vhook"
 	"github.com/deepteams/webp/internal/zzverif/vsync"
 )
@@ -115,6 +117,15 @@ func c10Scenarios(seed int64) []c10Scen {
 	three := []func() []byte{encBytes(noise(16, 16), lossy(4)), encBytes(imgs.Make(8, 8, "c4", "binary", seed), ll(4, 75)), decPix(small)}
 	add(c10Scen{name: "S8 three concurrent public calls, pools never reuse", workers: 1, quickP: 2, thorP: 2, thorPre: true, fresh: true, calls: three})
 	add(c10Scen{name: "S8p three concurrent public calls sharing pools", workers: 1, quickP: 2, thorP: 3, calls: three})
+	// S8q/S8d: calls that compete for the same pooled object types (same macroblock grid, codec)
+	dith := webp.DefaultOptions()
+	dith.Preprocessing = 2
+	add(c10Scen{name: "S8q two lossy encodes of one macroblock grid sharing pools (alpha+dither, opaque YCbCr source)", workers: 1, quickP: 2, thorP: 3, calls: []func() []byte{
+		encBytes(imgs.Make(24, 24, "gradient", "anoise", seed), dith), encBytes(imgs.As(imgs.Make(24, 24, "gradient", "opaque", seed), "YCbCr"), lossy(4))}})
+	vpA, _ := vp8gen.Generate(vp8Preset{"dims": 4, "coeffs": 7, "filter-level": 3, "lf-delta": 2, "ymode": 6}, seed)
+	vpB, _ := vp8gen.Generate(vp8Preset{"dims": 4, "coeffs": 7, "filter-level": 3, "lf-delta": 1, "ymode": 6}, seed)
+	add(c10Scen{name: "S8d two lossy decodes sharing pools (loop-filter deltas updated / kept)", workers: 1, quickP: 2, thorP: 3, calls: []func() []byte{
+		decPix(riffwalk.RIFF(riffwalk.ChunkBytes("VP8 ", vpA.Encode()))), decPix(riffwalk.RIFF(riffwalk.ChunkBytes("VP8 ", vpB.Encode())))}})
 	same := imgs.Make(16, 32, "noise", "agradient", seed)
 	add(c10Scen{name: "S9 two threads encode the same image object", workers: 1, quickP: 2, thorP: 3, calls: []func() []byte{encBytes(same, lossy(4)), encBytes(same, ll(4, 75))}})
 	add(c10Scen{name: "S10 lossless 64x64 gradient m6 q100 workers=3", workers: 3, quickP: 2, thorP: 3, calls: []func() []byte{encBytes(imgs.Make(64, 64, "gradient", "opaque", seed), ll(6, 100))}})
@@ -159,41 +170,18 @@ func digests(r [][]byte) []string {
 	return out
 }
 
-// c10Sequential returns, per call, the set of result digests obtainable by
-// running the calls one after the other in any order (same pool policy): a
-// concurrent execution must be equivalent to one of these.
+// c10Sequential returns, per call, the result digest the call gives when it is
+// run alone (nothing else running, pools empty and never reusing): the property
+// says a call made concurrently with others returns exactly that.
 func c10Sequential(s *c10Scen) []map[string]bool {
 	acc := make([]map[string]bool, len(s.calls))
-	for i := range acc {
-		acc[i] = map[string]bool{}
+	for i := range s.calls {
+		vhook.ClearSites()
+		vhook.SetDefault(s.workers)
+		vsync.SetPoolPolicy(vsync.PoolFresh, nil)
+		vsync.ResetPools()
+		acc[i] = map[string]bool{fw.Digest(s.calls[i]()): true}
 	}
-	idx := make([]int, len(s.calls))
-	for i := range idx {
-		idx[i] = i
-	}
-	var perm func(k int)
-	perm = func(k int) {
-		if k == len(idx) {
-			vhook.ClearSites()
-			vhook.SetDefault(s.workers)
-			if s.fresh {
-				vsync.SetPoolPolicy(vsync.PoolFresh, nil)
-			} else {
-				vsync.SetPoolPolicy(vsync.PoolMostRecent, nil)
-			}
-			vsync.ResetPools()
-			for _, i := range idx {
-				acc[i][fw.Digest(s.calls[i]())] = true
-			}
-			return
-		}
-		for j := k; j < len(idx); j++ {
-			idx[k], idx[j] = idx[j], idx[k]
-			perm(k + 1)
-			idx[k], idx[j] = idx[j], idx[k]
-		}
-	}
-	perm(0)
 	return acc
 }
 
@@ -241,7 +229,7 @@ func c10Judge(s *c10Scen, ref []string, seqOK []map[string]bool, results [][]byt
 			continue
 		}
 		if !seqOK[i][got[i]] {
-			return fmt.Sprintf("concurrent call %d returned a result (digest %s) that it returns in no sequential order of the same calls", i, got[i])
+			return fmt.Sprintf("concurrent call %d returned a result (digest %s, %d bytes) that differs from what the same call returns when run alone", i, got[i], len(results[i]))
 		}
 	}
 	return ""
@@ -250,7 +238,7 @@ func c10Judge(s *c10Scen, ref []string, seqOK []map[string]bool, results [][]byt
 func init() {
 	fw.Register(&fw.Check{
 		ID: "C10", Level: "model_checking", Shards: shards16,
-		Rule: "stateless exploration of the real code under a controlled scheduler that owns every sync/atomic/pool/channel/go operation (instrumenter rewrite R2): for each of 12 scenarios (row-pipelined lossy encoder with 1-, 2- and 3-macroblock-wide pictures, alpha, lossless encode/decode parallel sections, parallel frame decoding, concurrent public calls with and without pool sharing, two threads on one image) ALL schedules with at most D non-default scheduling decisions (quick: delay bound 2; thorough: preemption bound 2 with free switches at blocking points for the pipeline/channel/public-call scenarios, delay bound 3 elsewhere; per scenario in the evidence) are executed; oracle: bytes/pixels equal the non-preempted schedule (concurrent calls: equal to some sequential order), no deadlock, lost wake-up, livelock or panic; plus a separate free-running -race pass of the same bodies",
+		Rule:   "stateless exploration of the real code under a controlled scheduler that owns every sync/atomic/pool/channel/go operation (instrumenter rewrite R2): for each of 14 scenarios (row-pipelined lossy encoder with 1-, 2- and 3-macroblock-wide pictures, alpha, lossless encode/decode parallel sections, parallel frame decoding, concurrent public calls with and without pool sharing, two threads on one image) ALL schedules with at most D non-default scheduling decisions (quick: delay bound 2; thorough: preemption bound 2 with free switches at blocking points for the pipeline/channel/public-call scenarios, delay bound 3 elsewhere; per scenario in the evidence) are executed; oracle: bytes/pixels equal the non-preempted schedule (concurrent calls: each result equals what the same call returns when run alone with empty pools), no deadlock, lost wake-up, livelock or panic; plus a separate free-running -race pass of the same bodies",
 		Assume: []string{"sequential consistency at synchronisation operations; plain data races are only sampled by the free-running -race pass", "a completed sync.Once is not a scheduling point", "worker vector fixed per scenario; pools most-recent (fresh for S8)"},
 		Run: func(e *fw.Env, r *fw.Result) {
 			if len(e.Args) > 0 && e.Args[0] == "racepass" {
